@@ -195,6 +195,26 @@ def features(spec, mat):
     return feats
 
 
+def member_instances(spec, wire, mat):
+    """`wire` with every direct member that is (or holds) a structured class replaced by an instance of that class whose
+    own members still hold their wire values; None if no direct member is structured"""
+    k = spec["k"]
+    structured = lambda s: U.has_kind(s, "class", "ref")  # noqa: E731
+    I = lambda s, w: U.instance_from_wire(s, w, mat)  # noqa: E731
+    try:
+        if k in ("list", "set", "frozenset", "deque", "vtuple") and isinstance(wire, list) and wire and structured(spec["a"][0]):
+            return [I(spec["a"][0], w) for w in wire]
+        if k == "tuple" and isinstance(wire, list) and any(structured(s) for s in spec["a"]):
+            return [I(s, w) for s, w in zip(spec["a"], wire)]
+        if k == "dict" and isinstance(wire, dict) and wire and structured(spec["a"][1]):
+            return {kk: I(spec["a"][1], w) for kk, w in wire.items()}
+        if k == "class" and isinstance(wire, dict) and any(structured(f["t"]) for f in spec["fields"] if f["n"] in wire):
+            return {f["n"]: I(f["t"], wire[f["n"]]) for f in spec["fields"] if f["n"] in wire}
+    except Exception:
+        return None
+    return None
+
+
 JUNK_MEMBER = ["object()", "'not-valid-\\x00'", "[[['x']]]", "{'zz': object()}", "1j", "b'\\xff\\xfe'"]
 
 
@@ -223,6 +243,22 @@ def check_node(p, node, col, feats):
             col.violation(f"{direction}-equals-rebuild", dict(case_base, direction=direction),
                           f"node {path} ({mat.expr(spec_n, None)}): library {describe(lib)}; rebuilt from member routines {describe(ref)}",
                           bucket=f"{spec_n['k']}|{diff_bucket(lib[1], ref[1]) if lib[0] == ref[0] == 'ok' else lib[0] + '/' + ref[0]}"[:90])
+    # ---- members given as instances of their own class whose fields still hold wire values ---------------
+    inst = member_instances(spec_n, wire, mat)
+    if inst is not None:
+        col.ev()
+        col.label("member-instances")
+        tl.clear_all()
+        lib = outcome(tl.unmarshal, T_n, inst)
+        tl.clear_all()
+        ref = outcome(rebuild_unmarshal, spec_n, inst, mat)
+        if nontriv:
+            col.nt(p.key + path + "member-instances")
+        if not same_outcome(lib, ref):
+            col.violation("unmarshal-equals-rebuild", dict(case_base, direction="unmarshal", member_instances=True),
+                          f"node {path} ({mat.expr(spec_n, None)}) with structured members given as instances holding wire values: "
+                          f"library {describe(lib)}; rebuilt from member routines {describe(ref)}",
+                          bucket=f"member-instances|{spec_n['k']}|{diff_bucket(lib[1], ref[1]) if lib[0] == ref[0] == 'ok' else lib[0] + '/' + ref[0]}"[:90])
     # ---- exception parity: corrupt exactly one direct member -------------------------------------
     if isinstance(wire, (list, dict)) and wire:
         junk_src = p.draw(st.sampled_from(JUNK_MEMBER))
